@@ -17,6 +17,7 @@ RULE = (
     "mappings equal the parent's, predictions of a posterior sample sized by the parent's space equal those computed with the parent's ids. Non-trivial = "
     "history has >=1 reveal/mask/unmask on a stage whose rows do not cover the parent's mapping. distinct = distinct case JSON."
     ' Also: fixed boundary-size simulations (2**8, 2**15, 2**16 (+60) sample names or conditions, the last names in held-out experiments only).'
+    ' Also: sparse designs with names x doses above 2**32 (100k x 100k names and doses, 300k experiments; thorough larger) and with exactly 2**16 doses; one history in forty has 25..45 operations.'
 )
 ASSUMPTIONS = [
     "the prepared simulation is the pair returned by the hold-out split of the parent; stored values are in (0,1] so reveals are accepted",
@@ -26,7 +27,7 @@ ASSUMPTIONS = [
 
 def budgets(tier):
     if tier == "quick":
-        return {"examples": 260, "max_s": 80, "shrink_s": 20, "shards": 1}
+        return {"examples": 260, "max_s": 120, "shrink_s": 20, "shards": 1}
     return {"examples": 1500, "max_s": 700, "shrink_s": 90, "shards": 16}
 
 
@@ -46,7 +47,7 @@ def _case(draw):
         )
     )
     ops = []
-    for _ in range(draw(st.integers(1, 8))):
+    for _ in range(draw(st.one_of(*([st.integers(1, 8)] * 39 + [st.integers(25, 45)])))):  # one history in forty is long
         ops.append({"op": draw(st.sampled_from(OPS)), "stage": draw(st.sampled_from(["train", "train", "test"])), "picks": draw(st.lists(st.integers(0, 20), min_size=1, max_size=3))})
     theta = draw(S.theta_params("additive", sc["ns"], sc["nt"], D=2))
     return {
@@ -78,6 +79,13 @@ def exhaustive(tier):
     for axis, n in sizes:
         ops = [{"op": "saveload", "stage": "train", "picks": [1]}, {"op": "reveal", "stage": "train", "picks": [1]}, {"op": "saveload", "stage": "test", "picks": [1]}, {"op": "mask", "stage": "train", "picks": [1]}, {"op": "saveload", "stage": "train", "picks": [3]}]
         yield {"big": {"axis": axis, "n": n + 60, "tail": 100}, "fraction": 1.0, "seed": n, "ops": ops, "theta": {"kind": "additive", "alpha": 0.1, "precision": 2.0}}
+    for n, names, doses in [(300000, 100000, 100000)] + ([(600000, 150000, 150000), (900000, 70000, 300000)] if tier != "quick" else []):
+        ops = [{"op": "saveload", "stage": "train", "picks": [1]}, {"op": "reveal", "stage": "train", "picks": [1]}, {"op": "saveload", "stage": "test", "picks": [1]}]
+        yield {"big": {"axis": "random_sparse", "n": n, "tail": 100, "names": names, "doses": doses}, "fraction": 0.5, "seed": n, "ops": ops, "theta": {"kind": "additive", "alpha": 0.1, "precision": 2.0}}
+    # sparse designs whose name and dose counts multiply to 2**32 and beyond (2**16 doses, more than 2**16 names)
+    for n, doses, frac in [(2**16 + 60, 2**16, 0.5)] + ([(2**16 + 60, 2**16, 1.0), (2**17 + 9, 2**15, 0.5), (2**16 + 60, 2**16 - 1, 0.5), (70001, 70001, 0.5)] if tier != "quick" else []):
+        ops = [{"op": "saveload", "stage": "train", "picks": [1]}, {"op": "reveal", "stage": "train", "picks": [1]}, {"op": "saveload", "stage": "test", "picks": [1]}, {"op": "unmask", "stage": "train", "picks": [2]}]
+        yield {"big": {"axis": "sparse", "n": n, "tail": 100, "doses": doses}, "fraction": frac, "seed": n + doses, "ops": ops, "theta": {"kind": "additive", "alpha": 0.1, "precision": 2.0}}
 
 
 def _big_parent(g):
@@ -92,6 +100,19 @@ def _big_parent(g):
         samples = np.array(["s%06d" % k for k in i])
         tn = np.stack([np.array(["t%d" % (k % 5) for k in i]), np.array(["t%d" % ((k + 1 + k // 5 % 4) % 5) for k in i])], axis=1)
         td = np.stack([np.full(n, 1.0), np.where(i % 7 == 0, 0.0, 2.0)], axis=1)
+    elif g["axis"] == "random_sparse":
+        # `n` experiments, each with one of `names` names at one of `doses` doses (pairs drawn from a fixed-seed generator): a
+        # compound library at measured concentrations - names x doses is several times 2**32, the pairs present are a few 10**5
+        r_ = np.random.default_rng(g["names"] + g["doses"])
+        samples = np.array(["s%d" % (k % 4) for k in i])
+        tn = np.stack([np.char.add("c", r_.integers(0, g["names"], size=n).astype(str)), np.full(n, "ctl")], axis=1)
+        td = np.stack([0.001 * (1 + r_.integers(0, g["doses"], size=n)), np.zeros(n)], axis=1)
+    elif g["axis"] == "sparse":
+        # every name at one dose of its own kind: n names, `doses` distinct doses (name k at dose k mod doses) - names x doses is
+        # far beyond what the rows contain
+        samples = np.array(["s%d" % (k % 4) for k in i])
+        tn = np.stack([np.array(["t%06d" % k for k in i]), np.full(n, "ctl")], axis=1)
+        td = np.stack([0.25 * (1 + (i % g["doses"])), np.zeros(n)], axis=1)
     else:
         samples = np.array(["s%d" % (k % 4) for k in i])
         tn = np.stack([np.array(["t%06d" % (k // 2) for k in i]), np.full(n, "ctl")], axis=1)
@@ -100,6 +121,18 @@ def _big_parent(g):
 
 
 def _functions(s):
+    if s.size > 50000:
+        import pandas as pd
+
+        f_s = {str(k): int(v) for k, v in pd.DataFrame({"n": np.asarray(s.sample_names), "i": np.asarray(s.sample_ids)}).drop_duplicates().itertuples(index=False)}
+        tn, td, ti = np.asarray(s.treatment_names), np.asarray(s.treatment_doses), np.asarray(s.treatment_ids)
+        u = pd.DataFrame({"n": tn.ravel(), "d": td.ravel(), "i": ti.ravel()}).drop_duplicates()
+        f_t = {}
+        for nm, ds, ii in u.itertuples(index=False):
+            k = (str(nm), float(ds))
+            if f_t.setdefault(k, int(ii)) != int(ii):
+                f_t[k] = None  # one (name, dose) with two ids inside one screen: reported by the caller as a mismatch
+        return f_s, f_t
     f_s, f_t = {}, {}
     for name, i in zip(s.sample_names, s.sample_ids):
         f_s[str(name)] = int(i)
@@ -292,7 +325,7 @@ def check_case(case):
         tmp.cleanup(*paths)
     if "big" in case:
         nontrivial = True
-    labels = (["big:%s>=2^%d" % (case["big"]["axis"], (case["big"]["n"] - 60).bit_length() - 1)] if "big" in case else []) + ["fraction=%s" % case["fraction"], "prepared-by-cli" if case.get("via_cli") else "random-holdout" if case.get("random_split") else "plate-balanced-holdout"]
+    labels = (["big:%s>=2^%d" % (case["big"]["axis"], (case["big"]["n"] - 9).bit_length() - 1)] if "big" in case else []) + ["fraction=%s" % case["fraction"], "prepared-by-cli" if case.get("via_cli") else "random-holdout" if case.get("random_split") else "plate-balanced-holdout"]
     if uncovered["train"]:
         labels.append("train-rows-do-not-cover-mapping")
     if uncovered["test"]:
